@@ -1387,8 +1387,14 @@ impl Visitor<Diagnostic> for LibraryRenderer {
         self.newline();
 
         self.indent();
-        for item in node.body.iter() {
-            self.visit_stmt_kind(item)?;
+        if node.body.is_empty() {
+            self.write_ws("(* empty *)");
+            self.write_ws(";");
+            self.newline();
+        } else {
+            for item in node.body.iter() {
+                self.visit_stmt_kind(item)?;
+            }
         }
         self.outdent();
 
